@@ -8,6 +8,18 @@ with another exception, and for accepted designs: weight duplication, M, the pre
 row, the maximum_trials truncation, hence the length of every returned column, and the
 constraints handed to the search core: none).
 
+History: until /repo commit cac238c the support test of SMGen.sample refused AtMostKInARow /
+AtLeastKInARow / ExactlyK / Exclude / Pin only; ExactlyKInARow, ExactlyKMultipleInARow, Sequential
+and LatinSquare passed and were silently ignored (findings smgen:ignored:<Kind>, found by the
+search below, witnesses replayed on the real code).  cac238c lists the four classes in the
+isinstance chain; the model follows (SMGate.refused_kind) and this harness now expects the
+documented refusal "<Kind> constraints are not supported by SMGen." for all nine user constraint
+classes (hand programs refused-<Kind>, former-witness-<Kind>, direct-<Kind>); the search still
+judges every returned sequence against every constraint of the design, so a regression of the
+repair is reported as smgen:ignored:<Kind> again.  Not covered by the repair: the internal Sustain
+constraint (hand program nest-single-crossing-sustain, C29_gate_sustain_refuted, open finding
+smgen:length:Nest).
+
 LEVEL note: proof for the gate and the sequence length; the randomised backtracker
 (1250 lines, module-global state) is NOT modelled: every sequence it returns is judged
 per run by the reference oracle (translation validation).  The quantifier over timer
@@ -16,6 +28,12 @@ thread and no executable Gallina model exhibits that; the harness runs the searc
 the timer firing early (it cannot stop the search: the callback is invoked without its
 two arguments and dies in its own thread) and a wall-clock limit of its own.
 
+Correspondence (layer kinds): the constraint classes defined by sweetpea._internal.constraint are
+exactly the ones the model knows (none reads as Other), and SMGate's classification
+(refused / realised / user) of each.  (layer refusal-documented): each hand-written design with a
+user constraint class is refused by the real code with the documented message naming that class.
+(layer gate-total-instance): what the model reports as ignored on an accepted design is Sustain /
+unknown only (C29_gate_total).
 Correspondence (layer gate): on generated programs of every shape and constraint kind
 plus derived-of-derived / Window-class / multi-argument-transition variants, the outcome
 of `ir.synthesize(block, 2, "SMGen")` - documented refusal (which message), other
@@ -45,7 +63,11 @@ TITLE = "SMGen refuses or returns valid sequences"
 LEVEL = "proof (gate, length) + translation_validation (search outputs); timer interleavings partial"
 DOMAINS = ['SM', 'Design']
 
-REFUSED = ("AtMostKInARow", "AtLeastKInARow", "ExactlyK", "Exclude", "Pin")
+# the isinstance chain of SMGen.sample as of /repo commit cac238c (the last four were added by it)
+REFUSED = ("AtMostKInARow", "AtLeastKInARow", "ExactlyK", "Exclude", "Pin",
+           "ExactlyKInARow", "ExactlyKMultipleInARow", "LatinSquare", "Sequential")
+REALISED = ("Cross", "Consistency", "Derivation", "Reify", "MinimumTrials", "ContinuousConstraint")
+REFUSAL_MESSAGE = "%s constraints are not supported by SMGen."
 
 
 # --------------------------------------------------------------------------- running SMGen under control
@@ -262,9 +284,24 @@ def hand_programs():
         "factors": [f], "constraints": [{"id": 0, "kind": "MinimumTrials", "trials": 4}],
         "blocks": [{"id": 0, "kind": "CrossBlock", "design": [0], "crossing": [0], "constraints": [], "rcc": True},
                    {"id": 1, "kind": "Repeat", "block": 0, "constraints": [0]}], "main": 1}))
-    out.append(("exactlykinarow", cross([0, 1], [0, 1], [0], [{"id": 0, "kind": "ExactlyKInARow", "k": 2, "level": [0, "a"]}], [f, g])))
-    out.append(("sequential", cross([0, 1], [0, 1], [0], [{"id": 0, "kind": "Sequential", "factor": 0}], [h3, g])))
-    out.append(("latinsquare", cross([0, 1], [0, 1], [0], [{"id": 0, "kind": "LatinSquare", "factors": [0, 1]}], [h3, g3])))
+    # the internal Sustain constraint is not in the support test either: a Nest of a crossed outer block and an
+    # uncrossed inner block has ONE crossing, passes the gate (C29_gate_sustain_refuted) and gets 2 of its 6 trials
+    out.append(("nest-single-crossing-sustain", {
+        "factors": [f, g3], "constraints": [{"id": 0, "kind": "MinimumTrials", "trials": 3}],
+        "blocks": [{"id": 0, "kind": "CrossBlock", "design": [0], "crossing": [0], "constraints": [], "rcc": True},
+                   {"id": 1, "kind": "CrossBlock", "design": [1], "crossing": [], "constraints": [0], "rcc": True},
+                   {"id": 2, "kind": "Nest", "outer": 0, "inner": 1, "constraints": []}], "main": 2}))
+    # the witnesses of the defect repaired by cac238c (these designs were accepted and the constraint
+    # ignored); they exercise the refusal now
+    out.append(("former-witness-ExactlyKInARow",
+                cross([0, 1], [0, 1], [0], [{"id": 0, "kind": "ExactlyKInARow", "k": 2, "level": [0, "a"]}], [f, g])))
+    out.append(("former-witness-Sequential", cross([0, 1], [0, 1], [0], [{"id": 0, "kind": "Sequential", "factor": 0}], [h3, g])))
+    out.append(("former-witness-LatinSquare", cross([0, 1], [0, 1], [0], [{"id": 0, "kind": "LatinSquare", "factors": [0, 1]}], [h3, g3])))
+    # a repaired kind after a passing one and before an older refused one: the message names the first refused entry
+    out.append(("former-witness-Sequential-then-Pin",
+                cross([0, 1], [0, 1], [0, 1, 2], [{"id": 0, "kind": "MinimumTrials", "trials": 6},
+                                                  {"id": 1, "kind": "Sequential", "factor": 0},
+                                                  {"id": 2, "kind": "Pin", "index": 0, "level": [1, "x"]}], [h3, g])))
     # plain and weighted crossings, MinimumTrials
     out.append(("plain", cross([0, 1], [0, 1], [], [], [f, g])))
     for mt in (3, 5, 8, 9):
@@ -313,13 +350,58 @@ def hand_programs():
           "levels": [{"name": "ea", "table": [[["a"]]]}, {"name": "eb", "table": [[["b"]]]}]}
     out.append(("weighted-hidden-factor-read-by-implied", cross([0, 1, 2, 3], [1, 2], [], [], [fw, g, dw, ew])))
     for k in REFUSED:
+        if k == "ExactlyKMultipleInARow":
+            continue               # not expressible in the program IR: direct_cases()
         c = {"id": 0, "kind": k, "level": [0, "a"]}
-        if k in ("AtMostKInARow", "AtLeastKInARow", "ExactlyK"):
+        if k in ("AtMostKInARow", "AtLeastKInARow", "ExactlyK", "ExactlyKInARow"):
             c["k"] = 1
         if k == "Pin":
             c["index"] = 0
+        if k == "Sequential":
+            c = {"id": 0, "kind": k, "factor": 0}
+        if k == "LatinSquare":
+            c = {"id": 0, "kind": k, "factors": [0, 1]}
         out.append(("refused-" + k, cross([0, 1], [0, 1], [0], [c], [f, g])))
     return out
+
+
+def expected_refusal(tag):
+    """The constraint class a hand-written program must be refused for (None: no such expectation)."""
+    t = tag.split(":", 1)[-1]
+    for pre in ("refused-", "former-witness-", "direct-"):
+        if t.startswith(pre):
+            return t[len(pre):].split("-")[0]
+    return None
+
+
+def direct_cases():
+    """Blocks built with the library API directly (constraint classes the program IR cannot express):
+    (tag, thunk -> block).  No reference semantics: gate correspondence and refusal only."""
+    def two():
+        import sweetpea as sp
+        return sp.Factor("f", ["a", "b"]), sp.Factor("g", ["x", "y"])
+
+    def multiple_level():
+        import sweetpea as sp
+        from sweetpea._internal.constraint import ExactlyKMultipleInARow
+        f, g = two()
+        return sp.CrossBlock([f, g], [f, g], [ExactlyKMultipleInARow(2, (f, "a"))])
+
+    def multiple_factor():
+        import sweetpea as sp
+        from sweetpea._internal.constraint import ExactlyKMultipleInARow
+        f, g = two()
+        return sp.CrossBlock([f, g], [f, g], [sp.MinimumTrials(8), ExactlyKMultipleInARow(2, f)])
+    return [("direct-ExactlyKMultipleInARow", multiple_level), ("direct-ExactlyKMultipleInARow-factor", multiple_factor)]
+
+
+def constraint_classes():
+    """Names of the constraint classes defined in sweetpea._internal.constraint (the private base _KInARow excluded)."""
+    import inspect
+    import sweetpea._internal.constraint as cm
+    from sweetpea._internal.base_constraint import Constraint
+    return sorted(n for n, c in vars(cm).items()
+                  if inspect.isclass(c) and issubclass(c, Constraint) and c.__module__ == cm.__name__ and not n.startswith("_"))
 
 
 def family_programs():
@@ -535,6 +617,34 @@ def run_program(ctx, program, nseeds, limit, seeds=None, tag=""):
     return r
 
 
+def run_direct(ctx, tag, thunk, limit):
+    """A block built with the library API (no program IR, no reference semantics): summary, model line, one real run."""
+    r = {"status": None, "tag": tag, "found": [], "runs": [], "doc": "unsupported: direct"}
+    try:
+        with ir.quiet():
+            block = thunk()
+            s = summary_of(block)
+    except Exception as e:  # noqa
+        r["status"] = "rejected"
+        r["error"] = type(e).__name__ + ": " + str(e)[:100]
+        return r
+    r["status"] = "built"
+    r["summary"] = s
+    r["line"] = "(gate %s)" % docsem.to_wire(s)
+    seed = ctx.rng.randrange(2 ** 31)
+    r["seeds"] = [seed]
+    with ir.quiet():
+        blk2 = thunk()
+    out = run_smgen(blk2, 2, seed, limit)
+    r["runs"].append(classify_real(blk2, out))
+    if out[0] == "ok":
+        # no oracle for these classes here: a returned sequence means the design was not refused
+        r["found"].append(("smgen:ignored:" + (expected_refusal(tag) or "?"),
+                           "the design carries a constraint SMGen does not implement, yet sequences are returned instead of the "
+                           "documented refusal", {"seed": seed, "sample": out[1][:1]}))
+    return r
+
+
 # --------------------------------------------------------------------------- run / replay
 
 def run(ctx, res):
@@ -542,7 +652,9 @@ def run(ctx, res):
     n = 260 if quick else 1800
     nseeds = 3 if quick else 6
     limit = 1.0 if quick else 2.5
-    res.rule = ("%d programs: hand-written (one per refusal / crash class, the known defects, weights, MinimumTrials, derived of "
+    res.rule = ("%d programs: hand-written (one per refusal / crash class incl. each of the nine user constraint classes the support test "
+                "lists since cac238c and the former witnesses of smgen:ignored:*, which must be refused with the documented message; "
+                "the known defects, weights, MinimumTrials, derived of "
                 "derived, Window-class and ElseLevel-first levels) + the family 'two-trial derived factor crossed with the first "
                 "design factor x MinimumTrials(k), k = preamble+S .. preamble+3S' (Transition: 2 and 3 levels, crossing order "
                 "swapped with an uncrossed factor; Window class: refused) + corpus + gen_design of every shape (cross, repeat, multi, "
@@ -564,11 +676,36 @@ def run(ctx, res):
             r["li"] = len(lines)
             lines.append(r["line"])
         runs.append((p, r))
+    for tag, thunk in direct_cases():
+        p = {"direct": tag}
+        try:
+            r = run_direct(ctx, "direct:" + tag, thunk, limit)
+        except Exception as e:  # noqa
+            import traceback
+            r = {"status": "harness-error", "error": traceback.format_exc()[-400:], "tag": "direct:" + tag}
+        if r.get("line"):
+            r["li"] = len(lines)
+            lines.append(r["line"])
+        runs.append((p, r))
+    # the classes of constraint.py as the model reads them
+    classes = constraint_classes()
+    k0 = len(lines)
+    lines += ["(classify %s)" % c for c in classes]
     outs = ctx.model(lines) if lines else []
-    stats = {"status": {}, "shape": {}, "model": {}, "real": {}, "sequences-judged": 0, "oracle-unsupported": 0, "accepted-with-user-constraints": 0,
-             "length-theorem-hypotheses-hold": 0, "timeouts": 0}
+    stats = {"status": {}, "shape": {}, "model": {}, "real": {}, "sequences-judged": 0, "oracle-unsupported": 0,
+             "accepted-with-ignored-constraints": 0, "refusals-expected": 0,
+             "length-theorem-hypotheses-hold": 0, "timeouts": 0, "constraint-classes": {}}
     corr_bad = []
     found = []
+    for c, o in zip(classes, outs[k0:]):
+        want = "%s %s %s %s" % (c, "refused" if c in REFUSED else "passes", "user" if c in REFUSED else "internal",
+                                "realised" if c in REALISED else "unrealised")
+        stats["constraint-classes"][c] = o
+        ok = o == want
+        res.layer("kinds", ok)
+        res.count("class:" + c, nontrivial=True)
+        if not ok:
+            corr_bad.append(("kinds", {"class": c}, {"model": o, "expected": want}))
     for p, r in runs:
         key = json.dumps(p, sort_keys=True)
         st = r["status"]
@@ -581,9 +718,19 @@ def run(ctx, res):
             res.count(key, nontrivial=False)
             continue
         res.count(key, nontrivial=True)
-        sh = shape(p)
+        sh = shape(p) if "direct" not in p else "CrossBlock"
         stats["shape"][sh] = stats["shape"].get(sh, 0) + 1
         model = outs[r["li"]]
+        if any(k.s == "Other" or k.s not in classes for k in r["summary"][2]):
+            corr_bad.append(("kinds", p, {"constraints": [k.s for k in r["summary"][2]], "known": classes}))
+        exp = expected_refusal(r["tag"]) if r["tag"].split(":")[0] in ("hand", "direct") else None
+        if exp is not None:
+            stats["refusals-expected"] += 1
+            want = "refuse constraint " + exp
+            okr = model == want and bool(r["runs"]) and all(c == want for c in r["runs"])
+            res.layer("refusal-documented", okr)
+            if not okr:
+                corr_bad.append(("refusal-documented", p, {"expected": want, "model": model[:200], "real": r["runs"][:3]}))
         mk = " ".join(model.split(" ")[:3 if model.startswith("refuse constraint") else 2]) if not model.startswith("accept") else "accept"
         stats["model"][mk] = stats["model"].get(mk, 0) + 1
         if "doc" in r:
@@ -601,7 +748,12 @@ def run(ctx, res):
                 stats["sequences-judged"] += 2
         if model.startswith("accept"):
             ign = model_ignored(model)
-            stats["accepted-with-user-constraints"] += bool(ign)
+            stats["accepted-with-ignored-constraints"] += bool(ign)
+            # instance of C29_gate_total: an accepted design has no user constraint class; what is left over is Sustain / unknown
+            okt = set(ign) <= {"Sustain", "Other"} and not any(k.s in REFUSED for k in r["summary"][2]) and not model_handed(model)
+            res.layer("gate-total-instance", okt)
+            if not okt:
+                corr_bad.append(("gate-total-instance", p, {"model": model[:200], "constraints": [k.s for k in r["summary"][2]]}))
             # instances of C29_sm_length: the arithmetic hypotheses are read off the summary of the real block
             s = r["summary"]
             if length_hypotheses(s):
@@ -612,7 +764,7 @@ def run(ctx, res):
                     corr_bad.append(("length-theorem-instance", p, {"model": model[:200], "trials": s[4]}))
         for sig, what, detail in r.get("found", []):
             found.append((sig, what, detail, p))
-        if r["tag"].startswith("hand:") or (model.startswith("accept") and any(c.startswith("ok") for c in r["runs"]) and r.get("found")):
+        if r["tag"].startswith("hand:") or r["tag"].startswith("direct:") or (model.startswith("accept") and any(c.startswith("ok") for c in r["runs"]) and r.get("found")):
             res.sample({"tag": r["tag"], "shape": sh, "model": model[:160], "real": r["runs"][:3],
                         "findings": sorted(set(f[0] for f in r.get("found", [])))}, limit=12)
     res.extra["input_distribution"] = stats
@@ -635,11 +787,17 @@ def run(ctx, res):
                            "the reference oracle (Design/Sem.v valid_b); timer interleavings (threading.Timer callback in another "
                            "thread) are runtime behaviour outside any executable model: partial")
     res.notes.append("gate layer: refusal message / crash class / column length of the real SMGen vs SMGate.gate; search: "
-                     "oracle_valid on every returned sequence, failing component names the finding")
+                     "oracle_valid on every returned sequence, failing component names the finding; kinds: the classes of "
+                     "constraint.py vs SMGate.refused_kind / user_kind / realised_kind; refusal-documented: hand-written designs "
+                     "with a user constraint class are refused naming it (repair cac238c of smgen:ignored:*)")
 
 
 def replay(ctx, data):
     p = data["program"]
+    if "direct" in p:
+        thunk = dict(direct_cases())[p["direct"]]
+        r = run_direct(ctx, "direct:" + p["direct"], thunk, 3.0)
+        return data.get("sig") in [s for s, _, _ in r.get("found", [])]
     seeds = None
     if isinstance(data.get("detail"), dict) and "seed" in data["detail"]:
         seeds = [data["detail"]["seed"]] + [ctx.rng.randrange(2 ** 31) for _ in range(7)]
